@@ -121,11 +121,13 @@ Lemma wit_multirow_update_unique_index :
 Proof. wit_uidx. Qed.
 
 (** Repaired classes: the statement that used to break a constraint is outside every known
-    class now (so [inv_step_thm] covers it) and is rejected with ConstraintViolation. *)
+    class now (so [inv_step_thm] covers it) and is rejected with an error. *)
+Definition rejected (r : result) : bool := match r with ROk _ => false | _ => true end.
+
 Definition c10_repaired (schemas : list schema) (ss : list stmt) (s : stmt) : Prop :=
   Forall created schemas
   /\ clean (db_init schemas) (ss ++ [s]) = true
-  /\ snd (step (run (db_init schemas) ss) s) = RErrConstraint.
+  /\ rejected (snd (step (run (db_init schemas) ss) s)) = true.
 
 Ltac rep_tac := (split; [created_tac | split; vm_compute; reflexivity]).
 
@@ -153,19 +155,19 @@ Lemma rep_key_column_order :
                (SInsert 0 [i3 1 2 1]).
 Proof. rep_tac. Qed.
 
+(** was create-unique-index-over-duplicates: IndexManager::create_index now refuses *)
+Lemma rep_create_unique_index :
+  c10_repaired [t_pk0] [SInsert 0 [i3 1 10 0; i3 2 10 0]] (SCreateIndex 1 0 true [1%nat]).
+Proof. rep_tac. Qed.
+
 Lemma c10_repaired_holds schemas ss s :
   c10_repaired schemas ss s ->
-  Inv (fst (step (run (db_init schemas) ss) s)) /\ snd (step (run (db_init schemas) ss) s) = RErrConstraint.
+  Inv (fst (step (run (db_init schemas) ss) s)) /\ rejected (snd (step (run (db_init schemas) ss) s)) = true.
 Proof.
   intros [Hc [Hcl Hr]]. split; [|exact Hr].
   pose proof (inv_reachable_thm schemas (ss ++ [s]) Hc Hcl) as HI.
   unfold run in HI. rewrite fold_left_app in HI. exact HI.
 Qed.
-
-(** create-unique-index-over-duplicates *)
-Lemma wit_create_unique_index :
-  c10_witness [t_pk0] [SInsert 0 [i3 1 10 0; i3 2 10 0]] (SCreateIndex 1 0 true [1%nat]).
-Proof. wit_uidx. Qed.
 
 (** alter-add-constraint-unvalidated: ADD UNIQUE / ADD PRIMARY KEY / ADD CHECK over violating rows *)
 Lemma wit_alter_add_unique :
@@ -185,11 +187,24 @@ Lemma wit_check_not_enforced :
   c10_witness [t_pk0] [SAddCheck 0 (PCmpC 1 OLt 5); SInsert 0 [i3 1 1 0]] (SInsert 0 [i3 2 9 0]).
 Proof. wit_check. Qed.
 
-(** rollback-leaves-user-index-stale (C13's defect as seen by C15) *)
-Lemma wit_rollback_stale :
-  c15_witness [t_pk0] [SCreateIndex 1 0 false [1%nat]; SInsert 0 [i3 1 10 0]; SBegin; SInsert 0 [i3 2 20 0]]
-              SRollback.
-Proof. wit_mirror constr:([Some 20]). Qed.
+(** Repaired (was rollback-leaves-user-index-stale, C13's defect as seen by C15): ROLLBACK now
+    drops the user indexes and rebuilds those that existed at BEGIN from the restored tables.
+    The former witness is a history outside every known class; the index holds exactly key 10. *)
+Definition c15_repaired (schemas : list schema) (ss : list stmt) : Prop :=
+  Forall created schemas /\ clean (db_init schemas) ss = true.
+
+Lemma rep_rollback :
+  c15_repaired [t_pk0] [SCreateIndex 1 0 false [1%nat]; SInsert 0 [i3 1 10 0]; SBegin; SInsert 0 [i3 2 20 0]; SRollback]
+  /\ map (fun t => map ui_data (t_uidx t))
+         (d_tabs (run (db_init [t_pk0]) [SCreateIndex 1 0 false [1%nat]; SInsert 0 [i3 1 10 0]; SBegin;
+                                         SInsert 0 [i3 2 20 0]; SRollback]))
+     = [[[([Some 10], [0%nat])]]].
+Proof. split; [split; [created_tac | vm_compute; reflexivity] | vm_compute; reflexivity]. Qed.
+
+Lemma c15_repaired_holds schemas ss :
+  c15_repaired schemas ss ->
+  db_hash_mirror (run (db_init schemas) ss) /\ db_user_mirror (run (db_init schemas) ss).
+Proof. intros [Hc Hcl]. apply mirror_reachable_thm; assumption. Qed.
 
 (** savepoint-undo-leaves-user-index-stale (C14's defect as seen by C15) *)
 Lemma wit_savepoint_undo_stale :
